@@ -29,6 +29,18 @@ PH = "PLACEHOLDERq7"
 span, div, p, b = ht.span, ht.div, ht.p, ht.tags.b
 
 
+class HostileInt(int):
+    """int subclass (like an IntEnum with a custom __str__) whose text needs escaping."""
+
+    def __str__(self):
+        return "<%d&>" % int(self)
+
+
+class HostileFloat(float):
+    def __str__(self):
+        return "1<2&&3>%r" % float(self)
+
+
 class _TFLeaf:
     def __init__(self, x, as_list):
         self.x, self.as_list = x, as_list
@@ -274,6 +286,9 @@ def _run(ctx):
         pth = rng.choice(paths)
         if rng.random() < 0.15 and pth not in ("taglist_add", "taglist_radd", "tagify_single"):
             v = gen._num(gen.number_of(rng))
+            if rng.random() < 0.3:
+                v = HostileInt(rng.randint(-5, 99)) if rng.random() < 0.5 else HostileFloat(rng.random())
+                ctx.count("numbers_with_hostile_str")
             check_case(ctx, pth, v, True)
             ctx.case(nontrivial=False)
             ctx.state("path_x_class", (pth, "number"))
